@@ -204,6 +204,10 @@ func (dec *Decimal) SetString(s string) error {
 		return fmt.Errorf("failed to parse number %s: invalid fractional part", s)
 	}
 
+	// Trailing zeros do not change the value - String prints a fraction
+	// of "0" even for decimals with a scale of 0.
+	right = strings.TrimRight(right, "0")
+
 	if len(right) > dec.Scale {
 		return fmt.Errorf("number %s has %d fractional digits, scale is %d",
 			s, len(right), dec.Scale)
